@@ -39,14 +39,17 @@ def neg (c : Curve) (P : Pt) : Pt := ⟨negMod P.x c.p, P.y % c.p⟩
 
 def sub (c : Curve) (P Q : Pt) : Pt := add c P (neg c Q)
 
-/-- Double-and-add scalar multiplication (most significant bit first, by recursion on `k / 2`). -/
-def smul (c : Curve) (k : Nat) (P : Pt) : Pt :=
-  if h : k = 0 then zero else
-    let half := smul c (k / 2) P
-    let dbl := add c half half
-    if k % 2 = 1 then add c dbl P else dbl
-termination_by k
-decreasing_by omega
+/-- Double-and-add scalar multiplication; `fuel` bounds the number of bits of `k` processed
+    (structural recursion, so the kernel can evaluate it). -/
+def smulAux (c : Curve) : Nat → Nat → Pt → Pt
+  | 0, _, _ => zero
+  | fuel + 1, k, P =>
+    if k = 0 then zero else
+      let half := smulAux c fuel (k / 2) P
+      let dbl := add c half half
+      if k % 2 = 1 then add c dbl P else dbl
+
+def smul (c : Curve) (k : Nat) (P : Pt) : Pt := smulAux c (k.log2 + 1) k P
 
 /-- RFC 8032 / kyber encoding: 32 bytes little-endian `y`, bit 255 = least significant bit of `x`. -/
 def enc (c : Curve) (P : Pt) : Bytes :=
